@@ -573,3 +573,80 @@ def run(tier):
         "orders, /XT/<sel> vs /XT.zip/<sel> byte for byte after masking.  non-trivial = index has more than two inodes / "
         "call succeeded / answer is not the protocol's not-found")
     return chk.finish("proof")
+
+
+# ----------------------------------------------------------------------------
+# ./check C16 --replay <file>: re-run exactly that case against the repository
+# ----------------------------------------------------------------------------
+def replay(path):
+    with open(path) as f:
+        r = json.load(f)
+    tag = r.get("tag") or ""
+    if r.get("no_failing_input_found"):
+        print("replay names a proof / correspondence obligation, not an input:", r.get("what"))
+        return run("quick")
+    members = r.get("members")
+    tree = r.get("tree", [])
+    handlers = (r.get("config") or {}).get("handlers.HandlerMultiplexer", {}).get("handlers", ZIP_FIRST)
+    reproduced = False
+    if "paths" in r or "path" in r:                       # VFS level
+        paths = r.get("paths") or [r["path"]]
+        job = job_for(tree, members, [
+            {"do": "vfs", "calls": [["obs", ZSEL + ("/" + p if p else "")] for p in paths]},
+            {"do": "vfs_real", "calls": [["obs", TSEL + ("/" + p if p else "")] for p in paths]}])
+        res = impl_run([job])[0]
+        if not res["ok"]:
+            raise RuntimeError(res["err"])
+        za, ra = res["res"]["actions"]
+        for p, x, y in zip(paths, za.get("results", [["exc"]] * len(paths)), ra["results"]):
+            same = obs_equal(x, y)
+            print("path %r: archive %s / tree %s -> %s" % (p, x[:2], y[:2], "same" if same else "DIFFERENT"))
+            reproduced = reproduced or not same
+    elif "request_zip_latin1" in r:                        # whole request
+        acts_z = [{"do": "req", "data": r["request_zip_latin1"], "tls": r["tls"]}]
+        acts_t = [{"do": "req", "data": r["request_tree_latin1"], "tls": r["tls"]}]
+        jz = job_for(tree, members, acts_z, handlers=handlers, extra_root=[{"path": "outside.txt", "data": "OUTSIDE\n"}])
+        jt = job_for(tree, members, acts_t, handlers=without_real_only(handlers),
+                     extra_root=[{"path": "outside.txt", "data": "OUTSIDE\n"}])
+        rz, rt = impl_run([jz, jt])
+        for x in (rz, rt):
+            if not x["ok"]:
+                raise RuntimeError(x["err"])
+        a = mask(rt["res"]["actions"][0]["out"].encode("latin-1"), False)
+        b = mask(rz["res"]["actions"][0]["out"].encode("latin-1"), True)
+        p = r.get("member_path", "")
+        if ("|" in p or "?" in p) and gen.notfound_class(r["protocol"], rt["res"]["actions"][0]["out"].encode("latin-1")):
+            same = refusal_class(r["protocol"], rz["res"]["actions"][0]["out"].encode("latin-1"))
+        else:
+            same = a == b
+        print("tree   :", a[:300])
+        print("archive:", b[:300])
+        print("->", "same" if same else "DIFFERENT")
+        reproduced = not same
+    elif "handler_chain" in r:                             # handler choice inside the archive
+        job = job_for([], members, [{"do": "handler", "sel": r["selector"]}], handlers=handlers)
+        res = impl_run([job])[0]
+        if not res["ok"]:
+            raise RuntimeError(res["err"])
+        chain = res["res"]["actions"][0]["chain"]
+        print("selector %r -> %s" % (r["selector"], chain))
+        reproduced = chain[:1] == ["ZIPHandler"] and any(h in REAL_ONLY for h in chain[1:])
+    elif tag.startswith("D19-answers-from-server-cwd") or tag.startswith("D19-writes-in-server-cwd"):
+        sels = [r["selector"]] if "selector" in r else r["selectors"]
+        acts = []
+        for s in sels:
+            d, tls = gen.request_bytes("gopher", s)
+            acts.append({"do": "req", "data": gen.lat(d), "tls": tls})
+        job = job_for([], members, acts, handlers=handlers,
+                      cwd_files=[{"path": "mail.mbox", "data": G.MBOX.replace("one", "CWD-OUTSIDE-THE-ROOT")}])
+        res = impl_run([job])[0]
+        if not res["ok"]:
+            raise RuntimeError(res["err"])
+        outs = [a["out"] for a in res["res"]["actions"]]
+        print("answers:", [o[:80] for o in outs], "created in cwd:", res["res"]["cwd_created"])
+        reproduced = any("CWD-OUTSIDE-THE-ROOT" in o for o in outs) or bool(res["res"]["cwd_created"])
+    else:
+        print("unknown replay shape")
+        return 2
+    print("REPRODUCED" if reproduced else "not reproduced")
+    return 1 if reproduced else 0
